@@ -123,7 +123,7 @@ def groups(tier, seed):
                     continue
                 cases = []
                 for i, ss in enumerate(subsets(tier)):
-                    style = i % 3
+                    style = i % 4
                     cases.append({'funcs': ss, 'style': style})
                 yield {'tree': tname, 'arg': arg, 'where': wname, 'cases': cases}
 
@@ -259,7 +259,7 @@ def eval_group(env, group, tier):
                     names.append((al, real))
                 else:
                     names.append((f, f))
-            o_, c_ = [('(', ')'), ('{', '}'), ('(', ')')][c['style']]
+            o_, c_ = [('(', ')'), ('{', '}'), ('(', ')'), ('( ', ' )')][c['style']]      # (blanks inside the bracket change nothing: count( * ))
             cols = []
             for shown, real in names:
                 fn = shown.upper() if c['style'] == 2 else shown
